@@ -1,2 +1,169 @@
+(* C05 — RDM frame codec is total, bounds-safe and round-trips.
+   Only theorem statements here; proofs are in Proofs.v.  Byte strings are lists of N with
+   every element < 256 (bytes_ok) and a length that fits `unsigned int`. *)
 From OlaBase Require Import Bytes.
 From C05 Require Import Gen Model Proofs.
+Local Open Scope N_scope.
+
+(* Side obligations tying the regenerated constants to the numbers the property and the model's
+   header pattern use (a change of the wire layout or a constant in /repo breaks these). *)
+Theorem c05_layout :
+  (HEADER_SIZE, OFF_message_length, OFF_destination_uid, OFF_source_uid, OFF_transaction_number,
+   OFF_port_id, OFF_message_count, OFF_sub_device, OFF_command_class, OFF_param_id,
+   OFF_param_data_length, CHECKSUM_LENGTH) = (23, 1, 2, 8, 14, 15, 16, 17, 19, 20, 22, 2) /\
+  (START_CODE, SUB_START_CODE, MAX_PARAM_DATA_LENGTH, ACK_OVERFLOW) = (204, 1, 231, 3).
+Proof. split; reflexivity. Qed.
+Print Assumptions c05_layout.
+
+(* Decoding any byte string rejects or yields a command; no read outside the bytes supplied
+   (Oob is the model's outcome for any such read), for every decoder entry point. *)
+Theorem c05_total : forall bs rq,
+  bytes_ok bs = true -> len bs < 2^32 ->
+  inflate bs <> Oob /\ inflate_request bs <> Oob /\ inflate_response rq bs <> Oob /\
+  inflate_disc_request bs <> Oob /\ inflate_disc_response bs <> Oob /\ from_frame rq bs <> Oob.
+Proof.
+  intros bs rq Hb Hl. change (2^32) with 4294967296 in Hl.
+  repeat split.
+  - exact (inflate_total bs Hb Hl).
+  - exact (inflate_request_total bs Hb Hl).
+  - exact (inflate_response_total rq bs Hb Hl).
+  - exact (inflate_disc_request_total bs Hb Hl).
+  - exact (inflate_disc_response_total bs Hb Hl).
+  - exact (from_frame_total rq bs Hb Hl).
+Qed.
+Print Assumptions c05_total.
+
+(* A frame is accepted (by any decoder) only if sub-start code and additive checksum are correct
+   and the message-length and parameter-length fields fit inside the bytes present. *)
+Theorem c05_accept : forall bs rq c,
+  bytes_ok bs = true -> len bs < 2^32 ->
+  (inflate bs = Ok c \/ inflate_request bs = Ok c \/ inflate_response rq bs = Ok c \/
+   inflate_disc_request bs = Ok c \/ inflate_disc_response bs = Ok c) ->
+  exists ml pdl hi lo,
+    rd bs 0 = Some 1 /\ rd bs 1 = Some ml /\ rd bs 22 = Some pdl /\
+    24 <= ml /\ ml + 1 <= len bs /\ pdl + 25 <= len bs /\
+    rd bs (ml - 1) = Some hi /\ rd bs ml = Some lo /\
+    hi * 256 + lo = (204 + sum_bytes (take (ml - 1) bs)) mod 65536 /\
+    c_data c = take pdl (drop 23 bs).
+Proof.
+  intros bs rq c Hb Hl H. change (2^32) with 4294967296 in Hl.
+  assert (verify bs = VOk /\ fields bs = Some c) as [Hv Hf].
+  { destruct H as [H|[H|[H|[H|H]]]].
+    - exact (inflate_ok _ _ H).
+    - exact (inflate_request_ok _ _ H).
+    - exact (inflate_response_ok _ _ _ H).
+    - exact (inflate_disc_request_ok _ _ H).
+    - exact (inflate_disc_response_ok _ _ H). }
+  destruct (verify_ok bs Hb Hl Hv) as (h & rest & hi & lo & Es & Hssc & Hml & Hmll & Hhi & Hlo & Hck & Hpdl).
+  destruct (split_header_rd _ _ _ Es) as (R0 & R1 & R22 & _).
+  exists (h_ml h), (h_pdl h), hi, lo. rewrite Hssc in R0.
+  repeat split; try assumption.
+  unfold fields in Hf. rewrite Es in Hf. destruct (h_pdl h <=? len rest); [|discriminate].
+  inversion Hf; subst c; cbn [c_data]. f_equal.
+  destruct (split_header_some _ _ _ Es) as (Hbs & Ld & Ls & Lsub & Lpid & _).
+  clear - Es. unfold split_header in Es.
+  do 23 (destruct bs as [|? bs]; [discriminate|]). inversion Es; subst. reflexivity.
+Qed.
+Print Assumptions c05_accept.
+
+(* Every constructible request or response (any UIDs, transaction number, port id / response type,
+   message count, sub-device, PID, 0-231 parameter bytes, one of the six command classes; GET/SET
+   responses with a legal response type <= ACK_OVERFLOW) serialises to a frame that decodes to
+   exactly the same command (field-wise, hence also equal under the C++ operator==). *)
+Theorem c05_roundtrip : forall c,
+  wf_rt c = true ->
+  exists bs, pack c = Some bs /\ inflate bs = Ok c /\ cmd_eq_cpp c c = true /\
+             len bs = 25 + len (c_data c).
+Proof.
+  intros c H. destruct (roundtrip c H) as (bs & Hp & Hi).
+  exists bs. repeat split; try assumption.
+  - apply cmd_eq_cpp_refl.
+  - unfold wf_rt in H. apply andb_prop in H as [H _]. apply andb_prop in H as [Hwf _].
+    destruct (pack_verify_fields c Hwf) as (bs' & Hp' & _ & _ & _ & Hlen & _).
+    congruence.
+Qed.
+Print Assumptions c05_roundtrip.
+
+(* More than 231 parameter bytes never serialise. *)
+Theorem c05_pack_limit : forall c, 231 < len (c_data c) -> pack c = None.
+Proof.
+  intros c H. unfold pack, pack_o, MAX_PARAM_DATA_LENGTH.
+  destruct (231 <? len (c_data c)) eqn:E; [reflexivity|lia].
+Qed.
+Print Assumptions c05_pack_limit.
+
+(* Every accepted frame in canonical form (message length = 24 + parameter length, and the frame,
+   which excludes the start code, is message length + 1 bytes) re-serialises to the same bytes. *)
+Theorem c05_canonical : forall bs c,
+  bytes_ok bs = true -> len bs < 2^32 ->
+  inflate bs = Ok c ->
+  (forall ml pdl, rd bs 1 = Some ml -> rd bs 22 = Some pdl -> ml = 24 + pdl /\ len bs = ml + 1) ->
+  pack c = Some bs.
+Proof.
+  intros bs c Hb Hl Hi Hc. change (2^32) with 4294967296 in Hl.
+  destruct (inflate_ok _ _ Hi) as [Hv Hf].
+  exact (canonical bs c Hb Hl Hv Hf Hc).
+Qed.
+Print Assumptions c05_canonical.
+
+(* A response is matched to a request only when UIDs, transaction number, sub-device and command
+   class correspond ... *)
+Theorem c05_match_only_if : forall rq bs c,
+  inflate_response (Some rq) bs = Ok c ->
+  corresponds rq c /\ c_port c <= ACK_OVERFLOW /\
+  (c_cc c = DISCOVER_COMMAND_RESPONSE \/ c_cc c = GET_COMMAND_RESPONSE \/ c_cc c = SET_COMMAND_RESPONSE).
+Proof. exact match_ok. Qed.
+Print Assumptions c05_match_only_if.
+
+(* ... and otherwise the specific mismatch status is reported (first failing check, in the order
+   destination UID, source UID, transaction number, sub-device, command class, response type,
+   invalid class), and it is matched whenever everything corresponds. *)
+Theorem c05_match_status : forall rq bs c,
+  bytes_ok bs = true -> len bs < 2^32 ->
+  inflate_response None bs = Ok c \/ (verify bs = VOk /\ fields bs = Some c) ->
+  let r := inflate_response (Some rq) bs in
+  (c_dst c <> c_src rq -> r = Reject RDM_DEST_UID_MISMATCH) /\
+  (c_dst c = c_src rq -> c_src c <> c_dst rq -> r = Reject RDM_SRC_UID_MISMATCH) /\
+  (c_dst c = c_src rq -> c_src c = c_dst rq -> c_tn c <> c_tn rq -> r = Reject RDM_TRANSACTION_MISMATCH) /\
+  (c_dst c = c_src rq -> c_src c = c_dst rq -> c_tn c = c_tn rq ->
+   c_sub c <> c_sub rq -> c_sub rq <> ALL_RDM_SUBDEVICES -> c_pid rq <> PID_QUEUED_MESSAGE ->
+   r = Reject RDM_SUB_DEVICE_MISMATCH) /\
+  (c_dst c = c_src rq -> c_src c = c_dst rq -> c_tn c = c_tn rq ->
+   (c_sub c = c_sub rq \/ c_sub rq = ALL_RDM_SUBDEVICES \/ c_pid rq = PID_QUEUED_MESSAGE) ->
+   ((c_cc rq = GET_COMMAND /\ c_cc c <> GET_COMMAND_RESPONSE /\ c_pid rq <> PID_QUEUED_MESSAGE) \/
+    (c_cc rq = SET_COMMAND /\ c_cc c <> SET_COMMAND_RESPONSE) \/
+    (c_cc rq = DISCOVER_COMMAND /\ c_cc c <> DISCOVER_COMMAND_RESPONSE)) ->
+   r = Reject RDM_COMMAND_CLASS_MISMATCH) /\
+  (corresponds rq c -> ACK_OVERFLOW < c_port c -> r = Reject RDM_INVALID_RESPONSE_TYPE) /\
+  (corresponds rq c -> c_port c <= ACK_OVERFLOW ->
+   c_cc c <> DISCOVER_COMMAND_RESPONSE -> c_cc c <> GET_COMMAND_RESPONSE -> c_cc c <> SET_COMMAND_RESPONSE ->
+   r = Reject RDM_INVALID_COMMAND_CLASS) /\
+  (corresponds rq c -> c_port c <= ACK_OVERFLOW ->
+   (c_cc c = DISCOVER_COMMAND_RESPONSE \/ c_cc c = GET_COMMAND_RESPONSE \/ c_cc c = SET_COMMAND_RESPONSE) ->
+   r = Ok c).
+Proof.
+  intros rq bs c Hb Hl H.
+  assert (verify bs = VOk /\ fields bs = Some c) as [Hv Hf].
+  { destruct H as [H|H]; [exact (inflate_response_ok _ _ _ H)|exact H]. }
+  exact (match_status rq bs c Hv Hf).
+Qed.
+Print Assumptions c05_match_status.
+
+(* ---- non-vacuity: concrete instances meeting the hypotheses *)
+Definition ex_cmd : cmd :=
+  {| c_dst := 0x7a7000000001; c_src := 0x00010000002a; c_tn := 7; c_port := 1; c_mc := 0;
+     c_sub := 3; c_cc := 32; c_pid := 0x00f0; c_data := [1; 2; 255] |}.
+Example ex_wf : wf_rt ex_cmd = true. Proof. reflexivity. Qed.
+Example ex_roundtrip :
+  match pack ex_cmd with Some bs => inflate bs = Ok ex_cmd /\ len bs = 28 | None => False end.
+Proof. vm_compute. split; reflexivity. Qed.
+(* a rejected and an accepted frame exist; a too-small message length is rejected, not read *)
+Example ex_reject_ml0 : inflate (1 :: 0 :: repeat 0 17 ++ [32; 0; 0; 0]) = Reject RDM_PACKET_LENGTH_MISMATCH.
+Proof. vm_compute. reflexivity. Qed.
+Example ex_match_mismatch :
+  match pack {| c_dst := 5; c_src := 9; c_tn := 1; c_port := 0; c_mc := 0; c_sub := 0; c_cc := 33;
+                c_pid := 96; c_data := [] |} with
+  | Some bs => inflate_response (Some {| c_dst := 9; c_src := 5; c_tn := 2; c_port := 1; c_mc := 0;
+                 c_sub := 0; c_cc := 32; c_pid := 96; c_data := [] |}) bs = Reject RDM_TRANSACTION_MISMATCH
+  | None => False end.
+Proof. vm_compute. reflexivity. Qed.
